@@ -6,7 +6,9 @@ test functions of the space the initial configuration treats exactly:
   * dimension-wise strategy: tensor hats of the level vectors of the initial (lmin,lmax) index set (nodal hats of every
     level vector = a generating system of the piecewise-multilinear sparse-grid space) and random dyadic combinations;
     with modified_basis=True: (multi)linear functions for the integral, interior hats for the interpolant;
-  * extend-split (version 0) and the cell scheme (lmin = lmax): products of affine functions and sums of them.
+  * extend-split (version 0) and the cell scheme (lmin = lmax): all multilinear monomials, products of affine functions and
+    sums of them; family `esmulti`: split_single_dim=True with prescribed benefits for ALL areas in every round, so that one
+    refine() call contains multi-dimension splits of old areas followed by lmax-raising extends of newer ones.
 Refinement decisions are scripted (own ErrorCalculator returning pseudo-random errors keyed by the interval/area and
 the round) or come from the library's own estimators with a peaky function, so that histories are diverse.
 After each stop:
@@ -223,6 +225,14 @@ def make_scripted_class():
                 ev = getattr(ro, "evaluations", 0) or 0
                 return target * (ev if ev > 0 else 1)
             return r.random() ** self.power + 1e-6
+
+        def target(self, ro):
+            """the prescribed benefit of `ro` in the current round (multi mode)"""
+            key = "%d:%d:%s:%s:%s" % (self.seed, self.round, getattr(ro, "this_dim", -1),
+                                      np.asarray(ro.start, dtype=float).tobytes().hex(),
+                                      np.asarray(ro.end, dtype=float).tobytes().hex())
+            r = random.Random(key)
+            return 0.92 + 0.08 * r.random() if r.random() < self.multi else 0.3 * r.random()
 
     return Scripted
 
@@ -644,6 +654,12 @@ def run_es(ctx, drv, case):
         rounds_done[0] += 1
         if hasattr(ec, "round"):
             ec.round = rounds_done[0]
+        if case.get("multi") is not None and case["estimator"] == "scripted":
+            # re-estimate EVERY area in every round (the library only estimates new areas): prescribed benefits, several
+            # areas within the margin, old unrefined areas (-> multi-dimension split) before new ones (-> extend)
+            for A in sa.refinement.get_objects():
+                A.benefit = ec.target(A)
+            sa.benefit_max = sa.refinement.get_max_benefit()
         orig_refine()
     sa.refine = refine_hook
     try:
@@ -930,7 +946,7 @@ def run(ctx):
             import traceback
             ctx.corr_break("C04/corpus-case", {"file": os.path.basename(path)}, traceback.format_exc()[-1500:])
     budget = 85 if not thorough else 600
-    mix = ["dw", "es", "dw", "cell", "dw", "es", "dw", "dw", "cell", "es", "dw", "escont"]
+    mix = ["dw", "es", "dw", "cell", "esmulti", "dw", "es", "dw", "dw", "cell", "es", "dw", "escont", "esmulti"]
     k = 0
     while ctx.time_left(budget) > 0 and k < (400 if not thorough else 6000):
         strat = mix[k % len(mix)]
